@@ -64,6 +64,17 @@ NEEDS = {
  "C18c": ("skalo(): sample names sorted in place before use (duplicate check)", "an skf whose sample order is not lexicographically sorted: headers of the lo outputs are sorted while the genotype columns stay in skf order"),
  "C19c": ("merge(): a later input that fails to load is skipped with a warning", "a damaged .skf in a non-first position of ska merge"),
  "C20c": ("CoverageHistogram counts in a saturating u8", ">= 50 distinct split k-mers with multiplicity above 255 (multi-copy element or very deep data)"),
+ # fourth batch: invocation, file layout, unusual but legal auxiliary input
+ "C01d": ("add_file_kmers reads raw_seq() and strips only LF: a CR is encoded as a base", "a wrapped FASTA with Windows (CRLF) line endings"),
+ "C02d": ("FASTQ detection by file name (.fastq, .fq, .fastq.gz) instead of by content", "reads in a file named *.fq.gz: built as an assembly, the count filter is not applied"),
+ "C03d": ("valid_base whitelists upper-case A/C/G/T/U: lower-case bases break the k-mer like N", "a sample with soft-masked (lower-case) bases near a substituted site"),
+ "C04d": ("set_ostream opens the -o target without truncation", "ska map -o FILE where FILE exists and is longer than the new output: stale records remain"),
+ "C05d": ("same set_ostream change, found independently for the VCF output", "ska map -f vcf -o FILE into an existing longer file"),
+ "C06d": ("same set_ostream change, found independently for ska align", "ska align -o FILE into an existing longer file"),
+ "C07d": ("save_skf builds the file name with Path::with_extension", "an output prefix whose file name contains a dot (merge -o batch.12 writes batch.skf)"),
+ "C08d": ("names file split at LF and the last element dropped unconditionally", "a names file whose last line has no trailing newline: the last name is lost"),
+ "C09d": ("shared skf_filename helper using with_extension (build, merge, delete)", "an output prefix with a dot: the table is saved under another name and can overwrite an unrelated file"),
+ "C10d": ("same with_extension helper, found independently", "delete -o all.sub overwrites all.skf; build -o run.1 / run.2 clobber each other"),
  "C20b": ("CoverageHistogram::new: break instead of skip at the first read without a valid split k-mer", "a read shorter than k or with every N-free stretch shorter than k, followed by more reads in the same file"),
 }
 HISTORY = {
@@ -84,6 +95,16 @@ HISTORY = {
  "C17c": "missed when written (references were plain files); a third of the -r cases now use a gzip reference, most of them with two gzip members",
  "C18c": "missed when written (sample names smp0..smp7 were already sorted and the header of the indel VCF was not read); names are now unsorted and the sample columns of the indel VCF must be in input order",
  "C20c": "missed when written (multiplicities never exceeded about 150); an eighth of the read sets now contain a 4-6 kb element in 6-8 copies at coverage >= 50, so that >= 50 k-mers share multiplicities above 255",
+ "C01d": "missed when written (all generated text files had Unix line endings); C01 and C02 now also write FASTA files with CRLF line endings",
+ "C02d": "missed when written (read files were always named *.fastq[.gz]); C12 now names them .fastq, .fq, .fastq.gz or .fq.gz",
+ "C03d": "reported by C01 (mixed case) but missed by C03 itself (upper-case samples); C03 now soft-masks samples with a generated lower-case mask",
+ "C04d": "missed when written: the -o route had just been added and removed the output file first; the -o target is now an existing, long file (cli::plant_stale_output) in C04, C05, C06 and C14",
+ "C05d": "see C04d",
+ "C06d": "see C04d",
+ "C07d": "missed when written (prefixes without dots); C07, C08, C09 and C10 now also use output prefixes with a dot of their own (m.v1, y.2, x.v2, tmp.1)",
+ "C09d": "see C07d",
+ "C10d": "see C07d",
+ "C08d": "missed when written (names files always ended in a newline); names files are now written in five layouts: with and without a final newline, CRLF, trailing blank line, trailing white space",
  "C17": "missed by the first version of the C17 check (ska lo was always run with the default -m or 0.4); the -m values 0, 0.05, 0.4, 1 were added to the isolated-SNP stages and now report it",
 }
 res = {}
